@@ -141,7 +141,7 @@ func subChunks() mon.Sub {
 		Name: "cipher-chunks", Required: true,
 		N: func(t string) int {
 			if t == "thorough" {
-				return 40000
+				return 400000
 			}
 			return 3000
 		},
@@ -179,7 +179,7 @@ func subReader() mon.Sub {
 		Name: "cipher-reader", Required: true,
 		N: func(t string) int {
 			if t == "thorough" {
-				return 30000
+				return 300000
 			}
 			return 2500
 		},
@@ -234,7 +234,7 @@ func subWriter() mon.Sub {
 		Name: "cipher-writer", Required: true,
 		N: func(t string) int {
 			if t == "thorough" {
-				return 30000
+				return 300000
 			}
 			return 2500
 		},
